@@ -62,6 +62,7 @@ func (fc *fnCtx) resolveCallee(c *ssa.CallCommon) *callee {
 		} else {
 			short := fmt.Sprintf("(%s).%s", types.TypeString(rt, types.RelativeTo(c.Method.Pkg())), c.Method.Name())
 			ce.con = fc.g.CS.ByFunc[c.Method.Pkg().Path()+"::"+short]
+			ce.name = c.Method.Pkg().Name() + "." + short // the same symbol as in contract expressions
 		}
 		return ce
 	}
